@@ -33,9 +33,23 @@ def patched():
             if hasattr(m_, k):
                 saved.append((m_, k, getattr(m_, k)))
                 setattr(m_, k, v)
+    # Unitary(SymMat, ...) : skip the numeric unitarity test (it cannot run on symbolic entries)
+    U = gg.Unitary
+    orig_init = U.__init__
+
+    def init(self, unitary, *q, **kw):
+        if isinstance(unitary, SymMat):
+            kw["check_unitary"] = False
+        return orig_init(self, unitary, *q, **kw)
+    U.__init__ = init
+    ud = mod("qibo.transpiler.unitary_decompositions")
+    for k, v in {"np": fn}.items():
+        saved.append((ud, k, getattr(ud, k)))
+        setattr(ud, k, v)
     try:
         yield
     finally:
+        U.__init__ = orig_init
         for m_, k, v in saved:
             setattr(m_, k, v)
 
@@ -57,6 +71,7 @@ def sym_backend():
         b = SymBackend()
         b.matrices = b.matrices.__class__(b.dtype)
         b.matrices.np = st.FakeNp()
+        b.np = st.FakeNp()
         _backend = b
     return _backend
 
